@@ -32,6 +32,8 @@ pub mod group {
     pub const ENTRY: u32 = 64;
     /// Cursor operations performed inside a dependency-graph lock region.
     pub const DEPX: u32 = 128;
+    /// Every individual operation on a scheduler atomic (facade types in [`super::sync`]).
+    pub const ATOMIC: u32 = 256;
 }
 
 /// A loosely typed event field.
@@ -386,6 +388,85 @@ pub mod sync {
         }
     }
 
+    /// `std::sync::atomic` facades: a schedule point (group `ATOMIC`) before every operation, so
+    /// that a controller can interleave threads between any two atomic operations.
+    macro_rules! atomic_facade {
+        ($name:ident, $inner:ty, $val:ty) => {
+            #[derive(Debug, Default)]
+            #[repr(transparent)]
+            pub struct $name($inner);
+
+            impl $name {
+                pub const fn new(v: $val) -> Self {
+                    Self(<$inner>::new(v))
+                }
+                #[inline]
+                pub fn load(&self, o: std::sync::atomic::Ordering) -> $val {
+                    super::point(super::group::ATOMIC, "atomic");
+                    self.0.load(o)
+                }
+                #[inline]
+                pub fn store(&self, v: $val, o: std::sync::atomic::Ordering) {
+                    super::point(super::group::ATOMIC, "atomic");
+                    self.0.store(v, o)
+                }
+                #[inline]
+                pub fn swap(&self, v: $val, o: std::sync::atomic::Ordering) -> $val {
+                    super::point(super::group::ATOMIC, "atomic");
+                    self.0.swap(v, o)
+                }
+                #[inline]
+                pub fn compare_exchange(
+                    &self,
+                    c: $val,
+                    n: $val,
+                    s: std::sync::atomic::Ordering,
+                    f: std::sync::atomic::Ordering,
+                ) -> Result<$val, $val> {
+                    super::point(super::group::ATOMIC, "atomic");
+                    self.0.compare_exchange(c, n, s, f)
+                }
+                #[inline]
+                pub fn compare_exchange_weak(
+                    &self,
+                    c: $val,
+                    n: $val,
+                    s: std::sync::atomic::Ordering,
+                    f: std::sync::atomic::Ordering,
+                ) -> Result<$val, $val> {
+                    super::point(super::group::ATOMIC, "atomic");
+                    // no spurious failures under a controller
+                    self.0.compare_exchange(c, n, s, f)
+                }
+            }
+        };
+    }
+
+    atomic_facade!(AtomicBool, std::sync::atomic::AtomicBool, bool);
+    atomic_facade!(AtomicUsize, std::sync::atomic::AtomicUsize, usize);
+
+    impl AtomicUsize {
+        #[inline]
+        pub fn fetch_add(&self, v: usize, o: std::sync::atomic::Ordering) -> usize {
+            super::point(super::group::ATOMIC, "atomic");
+            self.0.fetch_add(v, o)
+        }
+        #[inline]
+        pub fn fetch_min(&self, v: usize, o: std::sync::atomic::Ordering) -> usize {
+            super::point(super::group::ATOMIC, "atomic");
+            self.0.fetch_min(v, o)
+        }
+        #[inline]
+        pub fn fetch_max(&self, v: usize, o: std::sync::atomic::Ordering) -> usize {
+            super::point(super::group::ATOMIC, "atomic");
+            self.0.fetch_max(v, o)
+        }
+        /// The underlying atomic, for read-only accessors that take `&std::sync::atomic::AtomicUsize`.
+        pub fn raw(&self) -> &std::sync::atomic::AtomicUsize {
+            &self.0
+        }
+    }
+
     impl<T> Drop for MutexGuard<'_, T> {
         fn drop(&mut self) {
             // Release the real lock before telling the controller it is free.
@@ -404,7 +485,6 @@ pub mod probe {
     use crate::{TxVersion, beneficiary::history_probe, tx_dependency::TxDependency};
     use revm_primitives::U256;
     use revm_state::AccountInfo;
-    use std::sync::atomic::AtomicUsize;
 
     pub use crate::scheduler::verif_probe::{Context, Slot};
 
@@ -426,7 +506,7 @@ pub mod probe {
         pub fn commit(&self, txid: usize) {
             self.0.commit(txid)
         }
-        pub fn key_tx(&self, txid: usize, committed: &AtomicUsize) {
+        pub fn key_tx(&self, txid: usize, committed: &crate::verif::sync::AtomicUsize) {
             self.0.key_tx(txid, crate::scheduler::PublishedCursorReader::new(committed))
         }
         pub fn add(&self, txid: usize, dep: Option<usize>) {
